@@ -229,7 +229,9 @@ class FileProvider(ContentProvider):
                 raise BlacklistedSpec()
 
         resolved = os.path.realpath(self.path)
-        if not resolved.startswith(os.path.realpath(self.root)):
+        real_root = os.path.realpath(self.root)
+        # compare whole path components: "/root2" is not beneath "/root"
+        if resolved != real_root and not resolved.startswith(os.path.join(real_root, "")):
             msg = "Relative path points outside the root: %s -> %s."
             raise Exception(msg % (self.path, resolved))
 
